@@ -135,7 +135,8 @@ def exits(fn: ast.AST, resolve_locals: bool = True, _record: Optional[list] = No
                     base_ids = {id(c) for c in conds}
                     x1 = [c for c in e1 if id(c) not in base_ids]
                     x2 = [c for c in e2 if id(c) not in base_ids]
-                    if x1 and x2:
+                    taut = {canon(c) for c in x1} == {canon(c) for c in pos} and {canon(c) for c in x2} == {canon(c) for c in neg}
+                    if x1 and x2 and not taut:  # `A or not A` says nothing
                         def conj(xs):
                             return xs[0] if len(xs) == 1 else ast.BoolOp(op=ast.And(), values=list(xs))
 
